@@ -42,7 +42,8 @@ def c06Eval (toks : List String) : Option C06Case :=
     let T := binResultTy bop L R
     let exact : Option Int :=
       if bop == .shl && l == 0 && r ≥ 0 then some 0
-      else if bop == .shr then (if r < 0 then none else some (l / 2^r.toNat))
+      else if bop == .shr then (if r < 0 then none else if r > 400 then some (if l < 0 then -1 else 0) else some (l / 2^r.toNat))
+      else if bop == .shl && r > 400 then some (l * 2^400)   -- far outside every range, same polarity as l * 2^r
       else Spec.exactBin bop l r
     let m := checkedBin path tag bop (L, l) (R, r)
     let ovf := match exact with
